@@ -41,8 +41,12 @@ Look ==
        [] E.how \in {"implm", "timplm"} -> E.exc = "" /\ E.r = (IF f # 0 /\ ~EmptyMember(E.t, f, E.m) THEN 1 ELSE 0)
        [] OTHER -> FALSE
 
+(* cast asks the Cast instance the OBJECT's type declares (own = 1: accepts everything, own = 2: refuses everything with *)
+(* KeyError); without one the types must be identical                                                                 *)
 Cast == /\ IsEv("cast") /\ UNCHANGED decl
-        /\ IF E.t = E.u THEN E.exc = "" /\ E.r = 1 ELSE E.exc = "ValueError"
+        /\ CASE E.own = 1 -> E.exc = "" /\ E.r = 1
+             [] E.own = 2 -> E.exc = "KeyError"
+             [] OTHER -> IF E.t = E.u THEN E.exc = "" /\ E.r = 1 ELSE E.exc = "ValueError"
 
 Next == Reset \/ End \/ Decl \/ RtOk \/ RtTooMany \/ Look \/ Cast
 Spec == Init /\ [][Next]_vars
